@@ -42,7 +42,11 @@ static void do_verify(long hist, jwt_checker_t *c, int is_signed, int64_t now, c
 	char *tok = mk_token(payload, is_signed);
 	int rc, ef;
 	vh_now = (time_t)now;
+	/* a quarter of the verifications run on a clock that advances by one second with every reading: a verification reads the clock once, so
+	 * its verdict, error flag and message all belong to that one reading */
+	{ static unsigned long nv; vh_tick = (++nv & 3) == 3 ? 1 : 0; }
 	rc = jwt_checker_verify(c, tok);
+	vh_tick = 0;
 	ef = jwt_checker_error(c);
 	printf("[\"V\",%ld,%" PRId64 ",", hist, now);
 	vh_put_jstr(stdout, payload);
@@ -212,10 +216,32 @@ static void random_payload(pl_t *p, int64_t now, int64_t lw_exp, int64_t lw_nbf)
 	if (vh_below(&rng, 2)) pl_add_raw(p, "extra", "{\"exp\":1,\"iss\":\"a\"}");
 }
 
+/* a callback that reconfigures its own checker (expected issuer per tenant, leeway per token ...): the callback runs before the claims are
+ * judged, so a configuration call it makes is the most recent one for the token in hand; the call is logged from inside the callback */
+typedef struct { jwt_checker_t *c; long hist; int armed; } cbx_t;
+static cbx_t g_cbx;
+static int reconf_cb(jwt_t *jwt, jwt_config_t *cfg)
+{
+	static const int T[3] = { JWT_CLAIM_ISS, JWT_CLAIM_SUB, JWT_CLAIM_AUD };
+	cbx_t *x = cfg->ctx ? cfg->ctx : &g_cbx;
+	(void)jwt;
+	if (!x->armed) return 0;
+	x->armed = 0;
+	switch (vh_below(&rng, 4)) {
+	case 0: do_set(x->hist, x->c, T[vh_below(&rng, 3)], STRS[vh_below(&rng, NSTRS)]); break;
+	case 1: do_del(x->hist, x->c, T[vh_below(&rng, 3)]); break;
+	case 2: do_leeway(x->hist, x->c, JWT_CLAIM_EXP, pick_leeway()); break;
+	default: do_leeway(x->hist, x->c, JWT_CLAIM_NBF, pick_leeway()); break;
+	}
+	return 0;
+}
+
 static void random_history(long hist, int is_signed, int len)
 {
 	jwt_checker_t *c = new_checker(hist, is_signed);
 	static const int T[3] = { JWT_CLAIM_ISS, JWT_CLAIM_SUB, JWT_CLAIM_AUD };
+	int with_cb = (hist & 3) == 1;
+	if (with_cb) { g_cbx.c = c; g_cbx.hist = hist; g_cbx.armed = 0; jwt_checker_setcb(c, reconf_cb, (hist & 4) ? &g_cbx : NULL); }
 	int64_t lw_exp = 0, lw_nbf = 0;
 	for (int i = 0; i < len; i++) {
 		switch (vh_below(&rng, 12)) {
@@ -239,6 +265,7 @@ static void random_history(long hist, int is_signed, int len)
 			pl_t p;
 			int64_t now = pick_now();
 			random_payload(&p, now, lw_exp, lw_nbf);
+			if (with_cb) g_cbx.armed = (int)vh_below(&rng, 2);
 			do_verify(hist, c, is_signed, now, pl_done(&p));
 		}
 		}
